@@ -298,7 +298,10 @@ def all_templates(src):
             if toks[i].text == "quote" and i + 1 < len(toks) and toks[i + 1].text == "!":
                 e = match_close(toks, i + 2)
                 grp = next((f"{rel}::{nm}" for (a, b, nm) in spans if a < i < b), f"{rel}::?")
-                out.append((rel, grp, Quote(toks[i + 3:e], toks[i].line)))
+                q = Quote(toks[i + 3:e], toks[i].line)
+                # `LIST.push(quote!{…})`: a fragment spliced into another template as `#(#LIST)*`
+                q.pushed_to = toks[i - 4].text if i >= 4 and text_of(toks[i - 3:i]) == ". push (" else None
+                out.append((rel, grp, q))
                 i = e + 1
             else:
                 i += 1
@@ -368,6 +371,53 @@ def template_scope(q):
     return locals_, local_use, rel_use
 
 
+def fn_regions(q):
+    """[(first token, last token)] of every `fn` item of a template (keyword through the end of its body)"""
+    t = q.toks
+    out = []
+    i = 0
+    while i < len(t):
+        if t[i].text == "fn" and (i == 0 or t[i - 1].text != "#"):
+            j = i + 1
+            while j < len(t) and t[j].text not in ("{", ";"):
+                if t[j].text in ("(", "["):
+                    j = match_close(t, j)
+                j += 1
+            if j < len(t) and t[j].text == "{":
+                e = match_close(t, j)
+                out.append((i, e))
+                i = e + 1
+                continue
+        i += 1
+    return out
+
+
+def scope_map(q):
+    """per token index: (local bindings, names imported by a `use` of an absolute path) that are in scope there.
+    A `let`, a parameter or a `use` inside one generated function says nothing about another function."""
+    regions = []
+    rel_use = []
+    for a, b in fn_regions(q):
+        l, u, ru = template_scope(Quote(q.toks[a:b + 1], q.line))
+        regions.append((a, b, l, u))
+        rel_use += ru
+    outside_toks = []
+    pos = 0
+    for a, b, _, _ in regions:
+        outside_toks += q.toks[pos:a]
+        pos = b + 1
+    outside_toks += q.toks[pos:]
+    lo, uo, ru = template_scope(Quote(outside_toks, q.line)) if outside_toks else (set(), set(), [])
+    rel_use += ru
+
+    def at(i):
+        for a, b, l, u in regions:
+            if a <= i <= b:
+                return l, u
+        return lo, uo
+    return at, rel_use, regions
+
+
 def _all_quotes(nodes):
     for n in nodes:
         if isinstance(n, Quote):
@@ -380,7 +430,7 @@ def _all_quotes(nodes):
                 yield from _all_quotes(b)
 
 
-def classify_names(q, rel, locals_, local_use):
+def classify_names(q, rel, scope_at):
     """classify every identifier occurrence of a template; returns [(name, class, line)]"""
     t = q.toks
     n = len(t)
@@ -396,6 +446,7 @@ def classify_names(q, rel, locals_, local_use):
         prev2 = t[i - 2].text if i > 1 else ""
         nxt = t[i + 1].text if i + 1 < n else ""
         name = x.text
+        locals_, local_use = scope_at(i)
         if prev == "#":
             cls = "interpolation"
         elif prev == "::":
@@ -544,21 +595,35 @@ def gen_inventory(src):
     occ_rows = []
     head_rows = []
     classes = {}
-    scopes = {}
+    maps = {}
     for rel, grp, q in temps:
-        l, u, ru = template_scope(q)
-        sc = scopes.setdefault(grp, [set(), set(), []])
-        sc[0] |= l; sc[1] |= u; sc[2] += ru
+        maps[id(q)] = scope_map(q)
     for rel, grp, q in temps:
-        sc = scopes[grp]
-        for name, cls, line in classify_names(q, rel, sc[0], sc[1]):
+        at, rel_use, _ = maps[id(q)]
+        if getattr(q, "pushed_to", None):
+            # a fragment lives in the function of the template that splices it: `#(#LIST)*`
+            hosts = []
+            for rel2, grp2, q2 in temps:
+                if grp2 != grp or q2 is q:
+                    continue
+                t2 = q2.toks
+                for i in range(len(t2) - 5):
+                    if text_of(t2[i:i + 6]) == f"# ( # {q.pushed_to} ) *":
+                        hosts.append((q2, i))
+            if len(hosts) != 1:
+                err(rel, q.line, f"template pushed to `{q.pushed_to}` is spliced {len(hosts)} times in its function")
+            hq, hi = hosts[0]
+            hat = maps[id(hq)][0]
+            l0, u0 = at(0)
+            hl, hu = hat(hi)
+            at = (lambda i, l=l0 | hl, u=u0 | hu: (l, u))
+        for name, cls, line in classify_names(q, rel, at):
             classes[cls] = classes.get(cls, 0) + 1
             occ_rows.append((rel, line, name, cls))
         for h in item_headers(q):
             head_rows.append((rel, h))
-    for grp, sc in scopes.items():
-        for txt, line in sc[2]:
-            occ_rows.append((grp.split("::")[0], line, txt, "relativeUse"))
+        for txt, line in rel_use:
+            occ_rows.append((rel, line, txt, "relativeUse"))
     # vis source: every generate of a feature with a user-visible item computes `vis` from self.vis or the enum's
     vis_ok = []
     for field in feature_fields(src):
@@ -772,3 +837,11 @@ def classify_site(toks, i, rel):
 
 
 GENERATORS += [("Inventory.lean", gen_inventory), ("HashSites.lean", gen_hashsites)]
+
+
+def gen_templates(src):
+    import translate_templates
+    return translate_templates.gen_templates(src)
+
+
+GENERATORS += [("Templates.lean", gen_templates)]
